@@ -160,7 +160,9 @@ class Ctx:
             cmd += ["-coverage", "1"]
         cmd.append(module + ".tla")
         env = dict(self.env)
-        jto = "-Xss64m -Djava.io.tmpdir=%s" % wd   # TLC leaves tlc-<n> directories in java.io.tmpdir
+        # TLC leaves tlc-<n> directories in java.io.tmpdir; the JVM's default heap limit (a quarter of the RAM) times
+        # 16 parallel trace shards invites the OOM killer, so single-worker runs get 3 GB, the others 12 GB
+        jto = "-Xss64m -Xmx%s -Djava.io.tmpdir=%s" % ("3g" if w == "1" else "12g", wd)
         if dfs:
             jto += " -Dtlc2.tool.queue.IStateQueue=StateDeque"
         env["JAVA_TOOL_OPTIONS"] = jto
